@@ -708,6 +708,22 @@ pub fn run(ctx: &Ctx, prop: &str) -> Shard {
         return shard;
     }
     let scs = scenarios(prop, ctx.thorough());
+    if ctx.get("tsan").is_some() {
+        // ThreadSanitizer build: free-running executions only, no harness-side synchronisation,
+        // no oracle - the sanitizer's reports (exit status 66) are the verdict
+        let g = sched::global();
+        g.quiet.store(true, Ordering::SeqCst);
+        let n = ctx.scale(12);
+        let mut rng = Rng::new(ctx.shard_seed());
+        for sc in &scs {
+            for _ in 0..n {
+                let _ = execute(sc, Mode::Free { seed: rng.next(), max_sleep_us: 0 }, &path, &mut st);
+            }
+        }
+        shard.evaluations = st.executions;
+        shard.count("tsan_free_running_executions", st.executions);
+        return shard;
+    }
     let p_bound: u32 = if ctx.thorough() { 3 } else { 2 };
     let dfs_budget = ctx.scale(if ctx.thorough() { 6000 } else { 350 });
     let mut rng = Rng::new(ctx.shard_seed());
